@@ -149,17 +149,37 @@ func c16outcome(vm *goja.Runtime, f func() (goja.Value, error)) (out string) {
 	return "ok:" + hs(s.String())
 }
 
+// c16Shapes: how the .json file is named and reached (file name -> request); what makes a file JSON is its last extension
+var c16Shapes = []struct{ file, request, pkgJSON string }{
+	{"/d/data.json", "/d/data.json", ""},
+	{"/d/data.json", "/d/data", ""},                    // extension search
+	{"/d/config.prod.json", "/d/config.prod.json", ""}, // more than one dot in the name
+	{"/d/.eslintrc.json", "/d/.eslintrc.json", ""},
+	{"/d/payload.min.json", "/d/payload.min", ""},
+	{"/d/pkg/lib/main.cfg.json", "/d/pkg", `{"main":"lib/main.cfg.json"}`},
+	{"/d/dir.json/index.json", "/d/dir.json", ""},
+	{"/d/pkg2/index.json", "/d/pkg2", ""},
+}
+
+var c16ShapeCounter int
+
 func emitC16(w *bufio.Writer, st *hx.Stats, content []byte) {
 	vm := goja.New()
+	shape := c16Shapes[c16ShapeCounter%len(c16Shapes)]
+	c16ShapeCounter++
+	st.Hit("shape:" + shape.file)
 	reg := require.NewRegistry(require.WithLoader(func(p string) ([]byte, error) {
-		if p == "/d/data.json" {
+		if p == shape.file {
 			return content, nil
+		}
+		if shape.pkgJSON != "" && p == shape.request+"/package.json" {
+			return []byte(shape.pkgJSON), nil
 		}
 		return nil, require.ModuleFileDoesNotExistError
 	}), require.WithPathResolver(func(base, p string) string { return path.Join(base, p) }))
 	rm := reg.Enable(vm)
 	vm.RunString(`globalThis.__sentinel = 42; var __before = Object.getOwnPropertyNames(globalThis).sort().join(",");`)
-	impl := c16outcome(vm, func() (goja.Value, error) { return rm.Require("/d/data.json") })
+	impl := c16outcome(vm, func() (goja.Value, error) { return rm.Require(shape.request) })
 	ref := c16outcome(vm, func() (goja.Value, error) {
 		parse, _ := goja.AssertFunction(vm.Get("JSON").ToObject(vm).Get("parse"))
 		return parse(goja.Undefined(), vm.ToValue(string(content)))
